@@ -251,3 +251,34 @@ package state
 //@   opt inline-none
 //@   requires ws != nil
 //@   callpre MutableForObject.ClearCache: ghost(flushed_count) == old(ghost(flushed_count)) + 1
+
+// ---------------------------------------------------------------------------
+// C20: state sync of an account: everything the account refers to is handed to the builder - API
+// info, storage trie, current AND next contract, object graph - before Resolve reports success
+// (rs_done: the set of parts whose Resolve has been called)
+// ---------------------------------------------------------------------------
+//@ property C20
+//@ smt all (declare-ghost rs_done (Array Int Bool))
+//@ func (c *contract) Resolve(builder) (err)
+//@   trusted
+//@   modifies *
+//@   opt ghost:rs_done store(ghost(rs_done), c, true)
+//@ func (o *objectGraph) Resolve(bd) (err)
+//@   trusted
+//@   modifies *
+//@   opt ghost:rs_done store(ghost(rs_done), o, true)
+//@ func (s *apiInfoStore) Resolve(bd) (err)
+//@   trusted
+//@   modifies *
+//@ func (s *accountSnapshotImpl) Resolve(bd) (err)
+//@   arith int
+//@   nosafety
+//@   modifies *
+//@   opt no-callee-pre
+//@   opt inline-none
+//@   opt protect fields(s)
+//@   requires s != nil
+//@   callpre contract.Resolve: builder == bd
+//@   callpre objectGraph.Resolve: bd == caller_bd
+//@   ensures [contracts] err == nil ==> (s.curContract != nil ==> ghost(rs_done)[s.curContract]) && (s.nextContract != nil ==> ghost(rs_done)[s.nextContract])
+//@   ensures [object_graph] err == nil ==> (s.objGraph != nil ==> ghost(rs_done)[s.objGraph])
